@@ -2,7 +2,7 @@
 //! integer literal forms against u128 parsing.
 use crate::oracle::{Ty, canon};
 use crate::real::{self, Outcome};
-use crate::util::{Cfg, Deadline, FLOAT_BOUNDARY, INT_BOUNDARY, Obj, Report, Rng};
+use crate::util::{Cfg, Deadline, FLOAT_BOUNDARY, INT_BOUNDARY, Obj, Report, Rng, truncate};
 use simplesl::variable::{Typed, Variable};
 use std::str::FromStr;
 use std::sync::Arc;
@@ -387,6 +387,63 @@ fn check_int_literal(text: &str, expected: Option<i64>, rep: &mut Report) {
     }
 }
 
+/// wrap `v` in `levels` further levels of nesting (arrays and tuples alternating by `pattern`)
+fn wrap(v: Variable, levels: usize, pattern: u64) -> Variable {
+    let mut cur = v;
+    for k in 0..levels {
+        cur = match pattern >> (k % 60) & 3 {
+            0 | 1 => Variable::from(vec![cur]),
+            2 => Variable::Tuple(Arc::from([cur, Variable::Int(k as i64)])),
+            _ => Variable::from(vec![Variable::Tuple(Arc::from([Variable::Bool(true), cur]))]),
+        };
+    }
+    cur
+}
+
+/// deep nestings (every depth up to 40: the property has no depth bound) and print histories: printing is a pure
+/// function of the value, so the text of a value is the same before and after values that *contain* it were printed,
+/// and after it was printed itself
+fn deep_and_histories(rng: &mut Rng, rounds: u64, rep: &mut Report) {
+    for r in 0..rounds {
+        let levels = 1 + (r as usize % 40);
+        let d0 = rng.below(3);
+        let leaf = gen_value(rng, d0);
+        let v = wrap(leaf, levels, rng.next());
+        rep.count("deep-values");
+        rep.shape("nesting_depths", &format!("{}", levels.min(12)));
+        check_value(&v, rep);
+        // history: inner value printed only after a value holding it (shared, not copied) was printed
+        let d1 = rng.below(3);
+        let g = gen_value(rng, d1);
+        let inner = wrap(g, 1 + r as usize % 7, rng.next());
+        let outer = wrap(inner.clone(), 1 + rng.below(9) as usize, rng.next());
+        let sibling = Variable::from(vec![inner.clone(), inner.clone()]);
+        let fresh_text = real::guarded(|| format!("{:?}", rebuild(&inner))).unwrap_or_default();
+        let _ = real::guarded(|| format!("{outer:?}"));
+        let _ = real::guarded(|| format!("{sibling:?}"));
+        let _ = real::guarded(|| outer.to_string());
+        let after = real::guarded(|| format!("{inner:?}")).unwrap_or_default();
+        let again = real::guarded(|| format!("{inner:?}")).unwrap_or_default();
+        rep.evaluations += 1;
+        rep.count("print-histories");
+        if after != again {
+            rep.violation("c20:print-history:second-print-differs", &format!("the same value printed twice gives {} and {}", truncate(&after, 200), truncate(&again, 200)), "c20-text", &after);
+        } else if !fresh_text.is_empty() && fresh_text != after {
+            rep.violation("c20:print-history:text-depends-on-earlier-prints", &format!("a value printed after a value containing it was printed gives {}; a separately built equal value prints as {}", truncate(&after, 200), truncate(&fresh_text, 200)), "c20-text", &after);
+        }
+        check_value(&inner, rep);
+    }
+}
+
+/// a structurally equal value that shares no array / tuple allocation with `v`
+fn rebuild(v: &Variable) -> Variable {
+    match v {
+        Variable::Array(a) => Variable::from(a.iter().map(rebuild).collect::<Vec<_>>()),
+        Variable::Tuple(t) => Variable::Tuple(t.iter().map(rebuild).collect()),
+        other => other.clone(),
+    }
+}
+
 pub fn run(cfg: &Cfg, rep: &mut Report) {
     let deadline = Deadline::new(cfg.budget_s);
     let mut rng = cfg.rng(20);
@@ -436,6 +493,41 @@ pub fn run(cfg: &Cfg, rep: &mut Report) {
             check_value(&Variable::from((0..n as i64).map(Variable::Int).collect::<Vec<_>>()), rep);
             check_value(&Variable::from((0..n / 2).map(|k| Variable::Tuple(Arc::from([Variable::Int(k as i64), Variable::String(Arc::from("p"))]))).collect::<Vec<_>>()), rep);
         }
+        // runs of elements that are equal (`==`) but not identical, or identical except at one position: an
+        // abbreviated rendering (run-length, repeat form) must not lose the difference
+        for n in [2usize, 3, 8, 15, 16, 17, 31, 32, 33, 64, 100, 257] {
+            let z = |neg: bool| Variable::Float(if neg { -0.0 } else { 0.0 });
+            for pat in 0..6usize {
+                let els: Vec<Variable> = (0..n)
+                    .map(|i| match pat {
+                        0 => z(i % 2 == 0),
+                        1 => z(i == n - 1),
+                        2 => z(i != 0),
+                        3 => Variable::Tuple(Arc::from([z(i % 3 == 0), Variable::Int(1)])),
+                        4 => Variable::from(vec![z(i == n / 2)]),
+                        _ => z(false),
+                    })
+                    .collect();
+                check_value(&Variable::from(els), rep);
+            }
+            for (a, b) in [
+                (Variable::Int(7), Variable::Int(8)),
+                (Variable::String(Arc::from("a")), Variable::String(Arc::from("a "))),
+                (Variable::Bool(true), Variable::Bool(false)),
+                (Variable::Void, Variable::Void),
+                (Variable::Float(1.0), Variable::Float(1.0000000000000002)),
+                (Variable::from(vec![Variable::Int(1)]), Variable::from(Vec::<Variable>::new())),
+                (Variable::Tuple(Arc::from([Variable::Int(1), Variable::Int(2)])), Variable::Tuple(Arc::from([Variable::Int(1), Variable::Int(3)]))),
+            ] {
+                check_value(&Variable::from(vec![a.clone(); n]), rep);
+                for odd in [0, n / 2, n - 1] {
+                    let mut els = vec![a.clone(); n];
+                    els[odd] = b.clone();
+                    check_value(&Variable::from(els.clone()), rep);
+                    check_value(&Variable::Tuple(Arc::from(els)), rep);
+                }
+            }
+        }
         for n in [1_000usize, 65_536, 400_000, 1_000_000] {
             check_value(&Variable::String(Arc::from("é".repeat(n / 2) + &"x".repeat(n / 2))), rep);
         }
@@ -462,6 +554,7 @@ pub fn run(cfg: &Cfg, rep: &mut Report) {
             check_int_literal(t, e, rep);
         }
     }
+    deep_and_histories(&mut rng, cfg.per_shard(2_000, 80_000), rep);
     let n_values = cfg.per_shard(150_000, 6_000_000);
     for i in 0..n_values {
         if i % 256 == 0 && deadline.over() {
